@@ -60,6 +60,7 @@ class Profile:
         global_refs=True,
         max_params=4,
         float_rem=False,
+        observe=True,
     ):
         self.__dict__.update(locals())
         del self.__dict__["self"]
@@ -118,7 +119,12 @@ def float_consts(ty, nonfinite):
         vals += [1e15, 1e-3, 4294967296.0, 9007199254740993.0]
     if nonfinite:
         vals += [float("inf"), float("-inf"), float("nan"), 5e-324 if ty == "f64" else 1.401298464324817e-45, 1e38]
-    s = st.one_of(st.sampled_from(vals), st.integers(-1000, 1000).map(float), st.floats(-1e6, 1e6, allow_nan=False, width=32 if ty == "f32" else 64))
+    s = st.one_of(
+        st.sampled_from(vals),
+        st.integers(-1000, 1000).map(float),
+        st.integers(-1000, 1000).map(lambda k: k / 8.0),
+        st.floats(-1e6, 1e6, allow_nan=False, width=32 if ty == "f32" else 64),
+    )
     if ty == "f32":
         s = s.map(_to_f32)
     return s
@@ -310,9 +316,17 @@ class _FuncGen:
                 define(pn, pty)
             if b == 0:
                 self.entry_setup(pool, out, define)
-            nins = draw(st.integers(0, prof.max_ins))
+            if prof.observe:
+                for pn, pty in phis[b]:
+                    if self.chance(60):
+                        self.observe(pn, pty, pool, out)
+            nins = 0 if (b > 0 and self.chance(22)) else draw(st.integers(0, prof.max_ins))
             for _ in range(nins):
                 self.gen_instruction(pool, out, define)
+            if prof.observe and nins and self.chance(45):
+                oty = self.pick(self.types)
+                if mine.get(oty):
+                    self.observe(self.pick(mine[oty]), oty, pool, out)
             # consts created through value_of/new_const went to pool only; register them as defs
             self.gen_terminator(b, pool, out, define)
             for ins in out:
@@ -342,7 +356,7 @@ class _FuncGen:
                         body[p].insert(len(body[p]) - 1, ["undef", un, pty])
                         defs[p].setdefault(pty, []).append(un)
                         inputs[bname[p]] = un
-                    elif cands and self.chance(80):
+                    elif cands and (self.chance(80) or len(body[p]) == 1):
                         inputs[bname[p]] = self.pick(cands)
                     else:
                         tmp = []
@@ -352,7 +366,41 @@ class _FuncGen:
                         inputs[bname[p]] = cn
                 pins.append(["phi", pn, pty, inputs])
             body[b] = pins + body[b]
-        blocks = [{"name": bname[b], "ins": body[b]} for b in range(nblocks)]
+        # diamond gadget: P: jmp C  ==>  P: cjmp ? E1 : E2;  E1: jmp C;  E2: jmp C  (E1, E2 empty) with the
+        # phis of C receiving different values over the two edges -- the shape mem2reg leaves for 'c ? a : b'
+        extra = []
+        for b in range(nblocks):
+            if kinds[b] != "jmp" or not body[b] or body[b][-1][0] != "jmp":
+                continue
+            c = succs[b][0]
+            if c == b or not self.chance(40 if phis[c] else 8):
+                continue
+            pool = {}
+            for qn, ty in params:
+                pool.setdefault(ty, []).append(qn)
+            for d in sorted(dom[b]):
+                for ty, names in defs[d].items():
+                    pool.setdefault(ty, []).extend(names)
+            e1, e2 = "%s_d%da" % (self.name, b), "%s_d%db" % (self.name, b)
+            tmp = []
+            cty = self.pick(self.types)
+            x = self.value_of(cty, pool, tmp)
+            y = self.value_of(cty, pool, tmp)
+            for ins in body[c]:
+                if ins[0] != "phi":
+                    break
+                old = ins[3].pop(bname[b])
+                cands = [v for v in pool.get(ins[2], []) if v != old]
+                if cands:
+                    other = self.pick(cands)
+                else:
+                    other = self.new_const(ins[2], pool, tmp)
+                ins[3][e1] = old
+                ins[3][e2] = other
+            body[b] = body[b][:-1] + tmp + [["cjmp", x, self.pick(CONDS), y, e1, e2]]
+            extra.append({"name": e1, "ins": [["jmp", bname[c]]]})
+            extra.append({"name": e2, "ins": [["jmp", bname[c]]]})
+        blocks = [{"name": bname[b], "ins": body[b]} for b in range(nblocks)] + extra
         fn = {"name": self.name, "params": params, "ret": ret, "bufs": bufs, "tailrec": bool(tailrec), "blocks": blocks}
         if tailrec:
             self.wrap_tailrec(fn)
@@ -394,9 +442,63 @@ class _FuncGen:
                     out.append(["store", v, p, False])
                     off += BITS[ty] // 8
 
+    def gen_mem_idiom(self, pool, out, define):
+        """store T v,[p]; <interfering access>; x = load T [p]; observe x   (same pointer value throughout)"""
+        ints = [t for t in self.types]
+        ty = self.pick(ints)
+        s = size_of(ty, self.prof.ptr_bits)
+        p = self.pointer_for(pool, out, s, True)
+        if p is None:
+            return
+        v = self.value_of(ty, pool, out)
+        out.append(["store", v, p, False])
+        k = self.draw(st.integers(0, 5))
+        if k == 0:
+            ty2 = self.pick([t for t in ints if size_of(t, 64) <= s])
+            out.append(["store", self.value_of(ty2, pool, out), p, False])
+        elif k == 1 and self.prof.copyblob:
+            src = self.pointer_for(pool, out, s, False, align=1)
+            if src is not None and (self.prov.get(src) or self.mod.prov.get(src))[1] != (self.prov.get(p) or self.mod.prov.get(p))[1]:
+                out.append(["copy", p, src, s])
+        elif k == 2:
+            out.append(["store", self.value_of(ty, pool, out), p, self.prof.volatile and self.chance(30)])
+        elif k == 3:
+            self.gen_call(pool, out, define)
+        elif k == 4:
+            y = self.fresh()
+            out.append(["load", y, ty, p, False])
+            define(y, ty)
+            out.append(["store", self.value_of(ty, pool, out), p, False])
+        x = self.fresh()
+        out.append(["load", x, ty, p, False])
+        define(x, ty)
+        if self.prof.observe:
+            self.observe(x, ty, pool, out)
+
+    def gen_chain_idiom(self, pool, out, define):
+        """u = (y op c1) op2 c2 with constant c1, c2; observe u"""
+        ints = [t for t in self.types if not is_float(t)]
+        ty = self.pick(self.types if self.chance(30) else (ints or self.types))
+        ops = ["+", "-"] if not is_float(ty) and self.chance(80) else (FLOAT_OPS if is_float(ty) else ["+", "-", "*", "&", "|", "^"])
+        y = self.value_of(ty, pool, out, allow_new=False) if pool.get(ty) else self.value_of(ty, pool, out)
+        c1 = self.new_const(ty, pool, out)
+        t = self.fresh()
+        out.append(["binop", t, ty, y, self.pick(ops), c1])
+        c2 = self.new_const(ty, pool, out)
+        u = self.fresh()
+        out.append(["binop", u, ty, t, self.pick(ops), c2])
+        define(t, ty)
+        define(u, ty)
+        if self.prof.observe:
+            self.observe(u, ty, pool, out)
+
     def gen_instruction(self, pool, out, define):
         draw, prof = self.draw, self.prof
-        r = draw(st.integers(0, 99))
+        r = draw(st.integers(0, 109))
+        if r >= 105:
+            return self.gen_mem_idiom(pool, out, define)
+        if r >= 100:
+            return self.gen_chain_idiom(pool, out, define)
         if r < 38:  # binop
             ty = self.pick(self.types)
             if is_float(ty):
@@ -428,6 +530,10 @@ class _FuncGen:
             sty = self.pick(self.types)
             if (is_float(sty) != is_float(dty)) and not prof.float_int_casts:
                 sty = dty
+            if is_float(sty) and not is_float(dty) and self.chance(85):
+                wide = [t for t in self.types if not is_float(t) and BITS[t] >= 32 and is_signed(t)]
+                if wide:
+                    dty = self.pick(wide)
             src = self.value_of(sty, pool, out)
             n = self.fresh()
             out.append(["cast", n, dty, src])
@@ -492,6 +598,33 @@ class _FuncGen:
         else:
             ty = self.pick(self.types)
             self.new_const(ty, pool, out)
+
+    def observe(self, v, ty, pool, out):
+        """Fold value v into the global observation accumulator (makes v matter to the outcome)."""
+        ints = [t for t in self.types if not is_float(t)]
+        if not ints or ty == "ptr":
+            return
+        acc_ty = "u64" if "u64" in ints else ("u32" if "u32" in ints else ints[0])
+        g = self.mod.obs_global(acc_ty)
+        if is_float(ty):
+            # keep the bits: store the float into the float slot of the accumulator object
+            q = self.fresh("ob")
+            cn = self.new_const("ptr", pool, out, 8)
+            out.append(["binop", q, "ptr", g, "+", cn])
+            out.append(["store", v, q, False])
+            return
+        x = v
+        if ty != acc_ty:
+            x = self.fresh("ob")
+            out.append(["cast", x, acc_ty, v])
+        old = self.fresh("ob")
+        out.append(["load", old, acc_ty, g, False])
+        k = self.new_const(acc_ty, pool, out, 31)
+        m = self.fresh("ob")
+        out.append(["binop", m, acc_ty, old, "*", k])
+        n = self.fresh("ob")
+        out.append(["binop", n, acc_ty, m, "+", x])
+        out.append(["store", n, g, False])
 
     def safe_divisor(self, ty, pool, out):
         if self.prof.unguarded and self.chance(10):
@@ -661,6 +794,12 @@ class _ModGen:
         self.functions = []
         self.prov = {}
         self._fuel = None
+
+    def obs_global(self, acc_ty):
+        if not getattr(self, "_obs", None):
+            self._obs = "g_obs"
+            self.globals.append({"name": "g_obs", "size": 16, "align": 8, "init": None})
+        return self._obs
 
     def fuel_global(self):
         if self._fuel is None:
